@@ -3,7 +3,7 @@ use std::marker::PhantomData;
 #[allow(unused_imports)] use any_vec::traits::{Cloneable, None as TNone};
 #[allow(unused_imports)] use anyvec_mc::elem::*;
 use anyvec_mc::exec::{Cfg, Runner};
-#[allow(unused_imports)] use anyvec_mc::track::{Track, TrackFence, TrackFixed, TrackTight, TrackWarm};
+#[allow(unused_imports)] use anyvec_mc::track::{Track, TrackFence, TrackFixed, TrackGreedy, TrackTight, TrackWarm};
 use anyvec_mc::Entry;
 #[cfg(feature = "alloc")] #[allow(unused_imports)] use any_vec::mem::Heap;
 
@@ -25,6 +25,7 @@ fn cfgs() -> Vec<Entry> {
     c!(v, true,"fixed",Z,Stack<8>,dyn Cloneable); // zero-sized, no drop glue, unbounded capacity: len == usize::MAX is reachable (set_len)
     c!(v, true,"fixed",W8D,TrackFixed<4>,dyn Cloneable);
     c!(v, true,"general",W8D,TrackWarm,dyn Cloneable);
+    c!(v, true,"general",T3D,TrackGreedy,dyn Cloneable);
     v
 }
 fn main() { anyvec_mc::main_with(cfgs) }
